@@ -64,7 +64,7 @@ pub fn draw_edit(rng: &mut Rng) -> Edit {
         13 => Edit::AddMemory { shared: rng.chance(1, 4), mem64: rng.chance(1, 4), export: rng.bool() },
         14 => Edit::AddTable { externref: rng.bool(), export: rng.bool() },
         15..=16 => Edit::AddData { passive: rng.bool(), len: rng.below(20) as u32, use_in_func: rng.bool() },
-        17..=18 => Edit::AddElem { kind: rng.below(5) as u8, n: rng.below(5) as u32 },
+        17..=18 => Edit::AddElem { kind: rng.below(7) as u8, n: rng.below(5) as u32 },
         19..=20 => Edit::ReplaceImported { pick: rng.u32(), seed: rng.u64(), kind: draw_kind(rng) },
         21 => Edit::ReplaceExported { pick: rng.u32(), seed: rng.u64(), kind: draw_kind(rng) },
         22 => Edit::SetStart { seed: rng.u64() },
